@@ -81,6 +81,9 @@ func truthful(t *testing.T, backend sim.Backend) {
 			if o.Hung != "" {
 				t.Fatalf("VERIF-INFRA: %s\n  plan=%s\n  scenario: %s", o.Hung, plan, p)
 			}
+			if o.Void != "" {
+				t.Skip("void case: " + o.Void)
+			}
 			if o.Infra != "" {
 				t.Fatalf("VERIF-INFRA: %s | plan=%s | %s", o.Infra, plan, p)
 			}
